@@ -277,7 +277,16 @@ Fixpoint gc_passes (c : cfg) (bl : list nat) (ords : nat -> list nat) (fuel i : 
     else Some (g', kept')
   end.
 
-Definition gc_index (c : cfg) (ords : nat -> list nat) (st : state)
+(* nodes that have a digest-only reference *)
+Definition digested (ix : list (ref * nat)) : list nat :=
+  flat_map (fun e => match fst e with RDig _ => [snd e] | RTag _ => [] end) ix.
+
+(* [kl]: which digest-only references survive the rebuild.  The source under test drops
+   those of descriptors that are neither tagged nor kept as referrers ([kl] = false); a
+   repair of index persistence (property C08) may keep every old digest reference whose
+   descriptor is still in the rebuilt graph ([kl] = true).  The harness probes the store and
+   passes what it sees; the theorems hold for both. *)
+Definition gc_index (c : cfg) (kl : bool) (ords : nat -> list nat) (st : state)
   : option (list (ref * nat) * list nat) :=
   let ix := idx st in
   let tn := tagged_nodes ix in
@@ -286,14 +295,15 @@ Definition gc_index (c : cfg) (ords : nat -> list nat) (st : state)
   | None => None
   | Some (g, kept) =>
     Some (filter (fun e => match fst e with RTag _ => true | RDig _ => false end) ix
-          ++ map (fun n => (RDig n, n)) (dedup tn ++ kept), g)
+          ++ map (fun n => (RDig n, n))
+                 (dedup tn ++ kept ++ (if kl then filter (fun n => memb n g) (digested ix) else [])), g)
   end.
 
 (* the sweep of blobs/: known algorithm directory, valid digest name, not in the graph *)
 Definition sweep_stray (s : stray) : bool := negb (s_known s && s_valid s).
 
-Definition gc (c : cfg) (ords : nat -> list nat) (st : state) : state * res :=
-  match gc_index c ords st with
+Definition gc (c : cfg) (kl : bool) (ords : nat -> list nat) (st : state) : state * res :=
+  match gc_index c kl ords st with
   | None => (st, EHang)
   | Some (ix, g) =>
     ({| blobs := filter (fun n => memb n g) (blobs st);
@@ -306,13 +316,13 @@ Definition gc (c : cfg) (ords : nat -> list nat) (st : state) : state * res :=
 (* ---------- histories ---------- *)
 Definition ord_id (k : nat) (l : list nat) : list nat := l.
 
-Definition step (c : cfg) (st : state) (o : op) : state * res :=
+Definition step (c : cfg) (kl : bool) (st : state) (o : op) : state * res :=
   match o with
   | OPush n => push st n
   | OTag n t => tag st n t
   | OUntag t => untag st t
   | ODelete n => delete c ord_id st n
-  | OGC => gc c (fun _ => candidates (idx st)) st
+  | OGC => gc c kl (fun _ => candidates (idx st)) st
   | OAuto b => ({| blobs := blobs st; idx := idx st; gnodes := gnodes st; strays := strays st;
                    autogc := b |}, Ok)
   | OStray s => ({| blobs := blobs st; idx := idx st; gnodes := gnodes st;
